@@ -85,7 +85,7 @@ class VSocket:
         self.proc.fds.append(self)
 
     def accept(self):
-        self.w.point("accept:" + self.name, lambda: bool(self.backlog) or self.closed)
+        self.w.point("accept:" + self.name, lambda: bool(self.backlog) or self.closed, xproc=True)
         if not self.backlog:
             raise OSError(9, "Bad file descriptor")
         conn = self.backlog.pop(0)
@@ -94,7 +94,7 @@ class VSocket:
     def connect(self, hostport) -> None:
         host, port = hostport
         w = self.w
-        w.point("connect:" + self.name)
+        w.point("connect:" + self.name, xproc=True)
         if host in ("localhost", "0.0.0.0", ""):
             host = "127.0.0.1"
         lst = None
@@ -124,7 +124,7 @@ class VSocket:
         class _F:
             def readline(self_inner) -> bytes:
                 p = sock.rx
-                sock.w.point("srl:" + sock.name, lambda: (b"\n" in p.buf) or p.wclosed)
+                sock.w.point("srl:" + sock.name, lambda: (b"\n" in p.buf) or p.wclosed, xproc=True)
                 i = p.buf.find(b"\n")
                 k = len(p.buf) if i < 0 else i + 1
                 out = bytes(p.buf[:k])
@@ -141,7 +141,7 @@ class VSocket:
         w = self.w
         if p is None or self.closed:
             raise OSError(9, "Bad file descriptor")
-        w.point("recv:" + self.name, lambda: bool(p.buf) or p.wclosed or self.rd_shut or self.closed)
+        w.point("recv:" + self.name, lambda: bool(p.buf) or p.wclosed or self.rd_shut or self.closed, xproc=True)
         if self.rd_shut or not p.buf:
             return b""
         k = min(n, len(p.buf))
@@ -158,7 +158,7 @@ class VSocket:
     def _send_piece(self, data: bytes) -> None:
         p = self.tx
         w = self.w
-        w.point("send:" + self.name)
+        w.point("send:" + self.name, xproc=True)
         if self.closed or self.wr_shut:
             raise BrokenPipeError(32, "Broken pipe")
         if p.rclosed:
@@ -201,7 +201,7 @@ class VSocket:
 
     def shutdown(self, how: int) -> None:
         w = self.w
-        w.point("shutdown:" + self.name)
+        w.point("shutdown:" + self.name, xproc=True)
         if self.tx is None and not self.listening:
             raise OSError(107, "Transport endpoint is not connected")
         if how in (0, 2):
@@ -241,9 +241,19 @@ def make_socket_module(world: World, proc) -> types.SimpleNamespace:
 # ----------------------------------------------------------------------
 _real_compile = builtins.compile
 _CACHE: dict = {}
+_SMALL: dict = {}
 
 
 def _compile(source, filename, mode, *a, **kw):
+    if isinstance(source, str) and not a and not kw and len(source) <= 20000:
+        key = (source, filename, mode)
+        co = _SMALL.get(key)
+        if co is None:
+            co = _real_compile(source, filename, mode)
+            if len(_SMALL) > 512:
+                _SMALL.clear()
+            _SMALL[key] = co
+        return co
     if isinstance(source, str) and len(source) > 20000 and not a and not kw:
         key = (source, filename, mode)
         co = _CACHE.get(key)
